@@ -448,6 +448,31 @@ theorem retried_attempts_untrusted (N : Net Addr Prefix) (cfg : Cfg Prefix) (c :
   rw [every_attempt_sends_the_same_forwarded_headers, every_attempt_sends_the_same_forwarded_headers,
     untrusted_forwarding_headers_irrelevant N cfg c w w' hu hc]
 
+/-! ## facts regenerated from the source on every run (tools/extract → Gen/Forwarding.lean) -/
+
+/-- `prepareRequest` strips the headers named by `Connection` and the hop-by-hop list BEFORE it calls
+    `addForwardedHeaders` — read off the AST; the model's `prepareRequest` has this order. -/
+theorem prepare_order_matches_source :
+    Gen.prepareRequestOrder = ["removeConnectionHeaders", "hopHeadersLoop", "addForwardedHeaders"] := by decide
+
+/-- the literal keys `addForwardedHeaders` deletes (unusable remote address) and sets are exactly the
+    three forwarding fields of the model, in the model's order -/
+theorem forwarded_keys_match_source :
+    Gen.forwardedDelKeys = [kXFF, kXFP, kXFH] ∧ Gen.forwardedSetKeys = [kXFF, kXFP, kXFH] := by decide
+
+/-- no forwarding field is in the source's hop-by-hop list (else `prepareRequest` would strip what a
+    trusted proxy sent before it can be kept) and `Connection` itself is -/
+theorem hop_headers_spare_forwarding_fields :
+    kXFF ∉ hopHeaders.map canonKey ∧ kXFP ∉ hopHeaders.map canonKey ∧ kXFH ∉ hopHeaders.map canonKey ∧
+    kConnection ∈ hopHeaders := by decide
+
+/-- the default of `client_ip_headers` in the source is X-Forwarded-For -/
+theorem default_client_ip_header_matches_source (cfg : Cfg Unit) (h : cfg.clientIPHeaders = none) :
+    effectiveHeaders cfg = [kXFF] := by
+  unfold effectiveHeaders
+  rw [h]
+  decide
+
 /-! ## model artefacts -/
 
 /-- `strings.TrimSpace`'s fuel (the input length) is never exhausted: nothing is left to trim -/
@@ -542,6 +567,8 @@ example : splitHostPort (toyNet.toString b!"fe80::1") = none ∧ cutZone (toyNet
     toyNet.parseAddr (toyNet.toString b!"::1") = some b!"::1" ∧ toyNet.parseAddr [] = none := by decide
 example : matchCidrZones toyNet b!"fe80::1" b!"eth0" exRanges = true ∧
     matchCidrZones toyNet b!"fe80::1" b!"eth1" exRanges = false := by decide
+-- default_client_ip_header_matches_source: the witness configuration leaves client_ip_headers unset
+example : witCfg.clientIPHeaders = none ∧ effectiveHeaders witCfg = [b!"X-Forwarded-For"] := by decide
 -- elements_are_per_value
 example : elements [b!"a,b", b!"", b!"c"] = [b!"a", b!"b", b!"", b!"c"] := by decide
 -- trimSpace_never_runs_out_of_fuel: NBSP, EM SPACE and ASCII blanks around an address
